@@ -96,8 +96,12 @@ def check(ctx):
     ctx.rule('C07.W7', 'the put-back of declined events (no notify) happens inside the in-dispatch guard that was entered before the take')
     ctx.rule('C07.W8', 'the in-dispatch counter (read by the wait predicate) is written only by its RAII guard')
     ctx.rule('C07.W6', 'queueNotifyCounter starts at zero in every constructor')
-    from .qcommon import check_counter_zero
+    ctx.rule('C07.W9', 'state derived from the list that the wait predicate reads is refreshed in every critical section that changes the list')
+    from .qcommon import check_counter_zero, check_derived_emptiness, TUInfo as _TUInfo
     for tu in ctx.tus:
+        _info = _TUInfo(tu)
+        for q in QUEUES:
+            check_derived_emptiness(ctx, tu, _info, q, 'C07.W9')
         check_tu(ctx, tu)
         check_counter_zero(ctx, tu, 'C07.W6')
         from .c11 import check_guard_span
@@ -107,6 +111,7 @@ def check(ctx):
             check_guard_span(ctx, tu, info7, q, 'C07.W7', only_with_putback=True)
     ctx.require_min('C07.W7', 3)    # processIf, processUntil, heter doProcessIf
     ctx.require_min('C07.W6', 6)
+    ctx.require_min('C07.W9', 2)
     ctx.require_min('C07.W8', 7)    # default, copy, move x 2 queue classes
 
     ctx.require_min('C07.W1', 4)    # wait, waitFor x 2 queue classes
